@@ -88,10 +88,10 @@ class Run:
         return insts
 
     def floor(self, rule_prefix: str, n: int) -> None:
-        # n is the count confirmed by hand on the reference tree; the alarm threshold is 60 % of it,
+        # n is the count confirmed by hand on the reference tree; the alarm threshold is a third of it,
         # so that ordinary refactors (a helper inlined, locals renamed) never trip it while a rule
         # that stopped matching its anchors does
-        self.floors[rule_prefix] = max(1, (n * 6) // 10)
+        self.floors[rule_prefix] = max(1, n // 3)
 
     def error(self, msg: str) -> None:
         self.errors.append(msg)
